@@ -140,6 +140,11 @@ var extraRoots = map[string][]string{
 	},
 }
 
+func init() {
+	// C15 (determinism, no hidden state) ranges over the same cone as C07
+	extraRoots["C15"] = extraRoots["C07"]
+}
+
 type Finding struct {
 	Prop  string
 	Oblig string // obligation name prefix (without the #n) or full name
